@@ -51,6 +51,8 @@ mod jit;
 mod no_std_error;
 mod stack;
 mod verifier;
+#[cfg(feature = "verif-hooks")]
+pub mod verif_hooks;
 
 /// Reexports all the types needed from the `std`, `core`, and `alloc`
 /// crates. This avoids elaborate import wrangling having to happen in every
